@@ -162,6 +162,17 @@ class HBatch(BatchBase):
                 raise w.err(HErr, ("flush", self.kind))
             if mode == "raiseB":
                 raise w.err(HBaseErr, ("flushB", self.kind))
+            if mode == "nested":
+                # the flush body synchronously calls an async function that blocks on another kind
+                w.nested_depth += 1
+                if w.nested_depth <= 2:
+                    other = "b" if self.kind != "b" else "a"
+                    w.waitstack.append(("nested", len(w.flushes)))
+                    try:
+                        hnested(other, -1 - len(w.flushes))
+                    finally:
+                        w.waitstack.pop()
+                w.nested_depth -= 1
             if mode == "new":
                 it = HItem(self.kind, -1 - len(w.flushes), "ok")
                 w.extra_items.append(it)
@@ -298,6 +309,7 @@ class World(object):
         self.decisions = []  # (menu kinds sorted, chosen kind)
         self.nsched = 0  # scheduler flush count (index of next decision)
         self.sched_flushing = None
+        self.sched_stack = []
         self.tasks = {}  # tid -> AsyncTask
         self.tid_of = {}  # id(task) -> tid
         self.steps = {}  # tid -> number of steps begun
@@ -334,6 +346,7 @@ class World(object):
         self.dd_stack = []
         self.dd_hosts = None
         self.dd_calls = 0
+        self.nested_depth = 0
 
     def v(self, cat, msg):
         self.viol.append((cat, msg))
@@ -359,8 +372,7 @@ class World(object):
             for it in batch.items:
                 if DBI_OWNER.get(id(it)) is not self:
                     self.v("foreign-item", "DebugBatch %r flushed by thread %d contains an item created elsewhere" % (batch.name, self.tidx))
-        if self.sched_flushing is not None and self.sched_flushing is not batch:
-            pass  # nested scheduler flush from inside a flush body: not produced by the DSL
+        self.sched_stack.append(batch)  # scheduler flushes nest when a flush body re-enters the scheduler
         self.sched_flushing = batch
         sch = _sched.get_scheduler()
         if isinstance(batch, HBatch):
@@ -396,9 +408,11 @@ class World(object):
         self.after_log.append(batch)
         if self.baton is not None:
             self.baton.point(self.tidx)
-        if self.sched_flushing is not batch:
+        if not self.sched_stack or self.sched_stack[-1] is not batch:
             self.v("events-bracket", "after-flush event for %s without matching before event" % batch)
-        self.sched_flushing = None
+        else:
+            self.sched_stack.pop()
+        self.sched_flushing = self.sched_stack[-1] if self.sched_stack else None
         if isinstance(batch, HBatch) and batch.flush_entries != 1:
             self.v("events-bracket", "after-flush event for %s whose body ran %d times" % (batch, batch.flush_entries))
 
@@ -1167,6 +1181,13 @@ def htask(tc):
     finally:
         w.body_exit(tc)
     return ("t", tc.tid, tuple(rec))
+
+
+@_asynq_deco()
+def hnested(kind, lid):
+    it = HItem(kind, lid, "ok")
+    _cur.w.keep.append(it)
+    return (yield it)
 
 
 @_asynq_deco()
